@@ -53,3 +53,83 @@ Proof. exact KV.Proofs.WaveFlat.flat_refines. Qed.
 Theorem C03_regions_check_sound : forall so n memlen,
   regions_ok_b so n memlen = true -> regions_ok so (fun k => k < n) memlen.
 Proof. exact KV.Proofs.WaveFlat.regions_ok_b_sound. Qed.
+
+(** MEMORY LEVEL, ALL FOUR c_reuse x strip_forks COMBINATIONS (Proofs/WaveRegion.v, Proofs/WaveSimGlue.v).
+    The region certificate is no longer checked per case: for EVERY [build] result the allocator invariant gives that the region
+    [c_locs[z], c_locs[z] + c_caps[z]) an op writes is disjoint from the region of every signal that is pinned or still read
+    (last clause of [regions_spec]); capacities, aliases and bounds of the published map are as SimOps documents them. *)
+From KV Require Import Model.Netlist Model.NetlistWf Model.NetlistSem Model.CycleSem Model.WaveGlue Model.WaveStripModel.
+From KV Require Proofs.EndToEnd Proofs.ReuseStrip Proofs.LogicSimGlue Proofs.WaveRegion Proofs.WaveSimGlue.
+Theorem C03_build_regions_all : forall c caps cmin reuse strip so,
+  wf_netlist c -> comb_acyclic c -> (0 < cmin)%N -> KV.Proofs.EndToEnd.gates_known c -> (strip = true -> KV.Proofs.ReuseStrip.forks_ok c) ->
+  build c caps cmin reuse strip = Some so ->
+  exists stems, build_stems c strip (length (c_lines c) + 3 + length (s_nodes c) + length (s_nodes c)) = Some stems /\
+    KV.Proofs.WaveRegion.regions_spec c caps cmin strip stems so.
+Proof. exact KV.Proofs.WaveRegion.build_regions_all. Qed.
+
+(* the compared model [wsim_case] is total wherever SimOps builds (and fails exactly where SimOps raises), captures at every
+   s_node with a data line the waveform that the alias execution of the scheduled op list leaves at the line's stem, and its
+   abuf is the accumulated activity of that execution -- whatever c_reuse and strip_forks are *)
+Theorem C03_wavesim_model_alias : forall c caps reuse strip delays actrl abuf_len s extra tcap,
+  wf_netlist c -> comb_acyclic c -> KV.Proofs.EndToEnd.gates_known c -> (strip = true -> KV.Proofs.ReuseStrip.forks_ok c) ->
+  length (c_lines c) <= length caps -> KV.Proofs.WaveSimGlue.extra_ok c extra ->
+  let dl := dl_of delays in let cp := lcap (length (c_lines c)) caps in let e0 := wenv0 c s extra in
+  match build_stems c strip (KV.Proofs.LogicSimGlue.std_len c) with
+  | Some stems =>
+      exists r, wsim_case c caps reuse strip delays actrl abuf_len s extra tcap = Some r /\
+        w_capt r = wglue_pred c (fun l => wexec_alias dl cp (stemmed stems) (build_ops c strip) e0 (stemmed stems l)) tcap /\
+        w_abuf r = wacc_alias dl cp actrl (stemmed stems) (build_ops c strip) e0 (repeat 0%Z abuf_len)
+  | None => wsim_case c caps reuse strip delays actrl abuf_len s extra tcap = None
+  end.
+Proof. exact KV.Proofs.WaveSimGlue.wavesim_model_alias. Qed.
+
+(* END TO END: every option combination captures the UNSTRIPPED line-level waveform [wexec] over [build_ops c false] of the line
+   feeding each s_node (with strip_forks: zero delay on fork inputs, strictly increasing stem waveforms that fit the branch
+   regions -- outside this side condition known finding D26 refutes it, C06_wave_strip_nonmonotone_refuted) *)
+Theorem C03_wavesim_model_correct : forall c caps reuse strip delays actrl abuf_len s extra tcap,
+  wf_netlist c -> comb_acyclic c -> KV.Proofs.EndToEnd.gates_known c -> length (c_lines c) <= length caps ->
+  KV.Proofs.WaveSimGlue.extra_ok c extra ->
+  let dl := dl_of delays in let cp := lcap (length (c_lines c)) caps in let e0 := wenv0 c s extra in
+  (strip = true -> build_stems c true (KV.Proofs.LogicSimGlue.std_len c) <> None /\ KV.Proofs.ReuseStrip.forks_ok c /\
+                   KV.Proofs.WaveSimGlue.forks_single c /\ KV.Proofs.WaveSimGlue.wave_inputs_ok c dl (stim_wave s extra) /\
+                   KV.Proofs.WaveSimGlue.strip_side c dl cp (wexec dl cp (build_ops c false) e0)) ->
+  exists r, wsim_case c caps reuse strip delays actrl abuf_len s extra tcap = Some r /\
+    w_capt r = wglue_pred c (wexec dl cp (build_ops c false) e0) tcap.
+Proof. exact KV.Proofs.WaveSimGlue.wavesim_model_correct. Qed.
+
+(* every hypothesis above has an executable test, evaluated on every generated case of the C03 / C05 / C13 / C06 campaigns *)
+Theorem C03_wglue_hyps_check_sound : forall c caps strip delays s extra,
+  KV.Proofs.WaveSimGlue.wglue_hyps_b c caps strip delays s extra = true ->
+  wf_netlist c /\ comb_acyclic c /\ KV.Proofs.EndToEnd.gates_known c /\ length (c_lines c) <= length caps /\
+  KV.Proofs.WaveSimGlue.extra_ok c extra /\
+  (strip = true -> build_stems c true (KV.Proofs.LogicSimGlue.std_len c) <> None /\ KV.Proofs.ReuseStrip.forks_ok c /\
+     KV.Proofs.WaveSimGlue.forks_single c /\ KV.Proofs.WaveSimGlue.wave_inputs_ok c (dl_of delays) (stim_wave s extra) /\
+     KV.Proofs.WaveSimGlue.strip_side c (dl_of delays) (lcap (length (c_lines c)) caps)
+        (wexec (dl_of delays) (lcap (length (c_lines c)) caps) (build_ops c false) (wenv0 c s extra))).
+Proof. exact KV.Proofs.WaveSimGlue.wglue_hyps_b_sound. Qed.
+
+(* settles: the captured initial / final values of every s_node with a data line are the Boolean evaluation of the netlist's
+   op list on the inputs' initial / final values -- at memory level, for all option combinations, overflow or not *)
+Theorem C03_wavesim_model_settles : forall c caps reuse strip delays actrl abuf_len s extra tcap,
+  wf_netlist c -> comb_acyclic c -> KV.Proofs.EndToEnd.gates_known c -> length (c_lines c) <= length caps ->
+  KV.Proofs.WaveSimGlue.extra_ok c extra ->
+  KV.Proofs.WaveSimGlue.wave_inputs_ok c (dl_of delays) (stim_wave s extra) ->
+  (strip = true -> build_stems c true (KV.Proofs.LogicSimGlue.std_len c) <> None /\ KV.Proofs.ReuseStrip.forks_ok c /\
+     KV.Proofs.WaveSimGlue.forks_single c /\
+     KV.Proofs.WaveSimGlue.strip_side c (dl_of delays) (lcap (length (c_lines c)) caps)
+        (wexec (dl_of delays) (lcap (length (c_lines c)) caps) (build_ops c false) (wenv0 c s extra))) ->
+  exists r, wsim_case c caps reuse strip delays actrl abuf_len s extra tcap = Some r /\
+    forall p l0, snode_in c p = Some l0 ->
+      exists ini eat lst fin val ovl, nth p (w_capt r) None = Some (ini, eat, lst, fin, val, ovl) /\
+        ini = bexec (build_ops c false) (fun j => init_val (wenv0 c s extra j)) l0 /\
+        fin = bexec (build_ops c false) (fun j => final_val (wenv0 c s extra j)) l0.
+Proof. exact KV.Proofs.WaveSimGlue.wavesim_model_settles. Qed.
+
+(* non-vacuity: a fork with reconverging branches and a multi-transition input satisfies every hypothesis for all four combinations *)
+Theorem C03_wavesim_model_example : forall reuse strip actrl n tcap,
+  exists r, wsim_case KV.Proofs.WaveStrip.StripWaveExample.cxw (repeat 8%N 6) reuse strip KV.Proofs.WaveSimGlue.WaveGlueExample.dls actrl n
+                      KV.Proofs.WaveSimGlue.WaveGlueExample.ss KV.Proofs.WaveSimGlue.WaveGlueExample.ex tcap = Some r /\
+    w_capt r = wglue_pred KV.Proofs.WaveStrip.StripWaveExample.cxw
+                 (wexec (dl_of KV.Proofs.WaveSimGlue.WaveGlueExample.dls) (lcap 6 (repeat 8%N 6)) (build_ops KV.Proofs.WaveStrip.StripWaveExample.cxw false)
+                        (wenv0 KV.Proofs.WaveStrip.StripWaveExample.cxw KV.Proofs.WaveSimGlue.WaveGlueExample.ss KV.Proofs.WaveSimGlue.WaveGlueExample.ex)) tcap.
+Proof. exact KV.Proofs.WaveSimGlue.WaveGlueExample.cxw_by_theorem. Qed.
